@@ -23,6 +23,8 @@ import itertools
 import socket as _real_socket
 from typing import Any, Dict, List
 
+from . import priv as PV          # private state of Client objects, found on the object (not by name)
+
 
 class _Sock:
     def __init__(self, world):
@@ -298,9 +300,9 @@ def check_reconnect_state() -> Dict[str, Any]:
                 world["inbuf"] = _ack_bytes(timecode, 12) * 2 + bytes(h)
                 c.connect("h:1")
                 reported = sorted(int(t) for t in c.subscribed_types)
-                if reported or getattr(c, "_sub_all", False):
+                if reported or PV.get_sub_all(c):
                     failures.append(dict(tag, property="C02", what=f"after reconnecting, the client reports subscriptions "
-                                         f"{reported}{' and subscribe-to-all' if getattr(c, '_sub_all', False) else ''}; the manager "
+                                         f"{reported}{' and subscribe-to-all' if PV.get_sub_all(c) else ''}; the manager "
                                          f"has none for the new connection"))
                 got = None
                 try:
@@ -311,7 +313,7 @@ def check_reconnect_state() -> Dict[str, Any]:
                 if got is not None:
                     failures.append(dict(tag, property="C08", what=f"after reconnecting (no subscription made on the new "
                                          f"connection) read_message returned {got!r} for a queued frame of type {T1}"))
-                c._connected = False
+                PV.set_connected(c, False)
             except Exception as e:  # noqa: BLE001
                 failures.append(dict(tag, property="C02", what=f"raised {type(e).__name__}: {e}"))
                 failures.append(dict(tag, property="C08", what=f"raised {type(e).__name__}: {e}"))
@@ -398,7 +400,7 @@ def entry_model_cases() -> List[Dict[str, Any]]:
                             pass
                         p, k = calls["connect"]
                         c.connect(*p, **k)
-                        c._connected = False
+                        PV.set_connected(c, False)
                 except Exception as e:  # noqa: BLE001
                     err = f"raised_{type(e).__name__}"
                 frames = _decode(world["sent"], tc)
